@@ -79,7 +79,12 @@ def main():
         'checks': checks,
         'not_applicable': na,
         'notes': 'Exit codes of every check: 0 held, 1 violation (VIOLATION line), 2 infrastructure '
-                 'failure. Known findings: known_findings.json.',
+                 'failure (tools missing, scheduler watchdog, time-out). A proof that no longer builds, a '
+                 'model/implementation disagreement, or a failure of the harness itself after the Lean phase '
+                 'with no failing input found ends with "VIOLATION ... no-failing-input-found" (exit 1). '
+                 'Known findings: known_findings.json. VERIF_SEED, VERIF_TIER, VERIF_OUT_DIR (where evidence/ '
+                 'and replays/ are written; default /verif) and BARDOLPH_REPO (the tree under test; default '
+                 '/repo) are honoured.',
     }
     with open(os.path.join(ROOT, 'MANIFEST.json'), 'w') as f:
         json.dump(manifest, f, indent=1)
